@@ -302,10 +302,14 @@ void add_type(Node *node) {
       error_tok(node->cas_addr->tok, "pointer expected");
     if (node->cas_old->ty->kind != TY_PTR)
       error_tok(node->cas_old->tok, "pointer expected");
+    if (is_numeric(node->cas_addr->ty->base))
+      node->cas_new = new_cast(node->cas_new, node->cas_addr->ty->base);
     return;
   case ND_EXCH:
     if (node->lhs->ty->kind != TY_PTR)
-      error_tok(node->cas_addr->tok, "pointer expected");
+      error_tok(node->lhs->tok, "pointer expected");
+    if (is_numeric(node->lhs->ty->base))
+      node->rhs = new_cast(node->rhs, node->lhs->ty->base);
     node->ty = node->lhs->ty->base;
     return;
   }
